@@ -24,4 +24,11 @@ RECURSIVE Terminator(_)
 Terminator(x) == IF IsAtom(x) THEN x ELSE Terminator(x.r)
 
 NilTerminated(x) == IsNil(Terminator(x))
+
+\* traces carry lists flat: [a |-> bytes] | [s |-> <<items>>, t |-> terminator]; FromJ rebuilds the pairs
+\* (a tree that is already in pair form is returned unchanged)
+RECURSIVE FromJ(_)
+FromJ(x) == IF "a" \in DOMAIN x THEN [a |-> x.a]
+            ELSE IF "s" \in DOMAIN x THEN ListWithTail([i \in DOMAIN x.s |-> FromJ(x.s[i])], FromJ(x.t))
+            ELSE [l |-> FromJ(x.l), r |-> FromJ(x.r)]
 =============================================================================
